@@ -108,6 +108,13 @@ pub fn install_panic_hook() {
         let loc = info.location().map(|l| format!("{}:{}", l.file(), l.line())).unwrap_or_default();
         if QUIET.with(|q| q.get()) == 0 {
             eprintln!("pvmon: uncaught panic: {msg} @ {loc}");
+            // a panic raised *inside the library* while the harness was not expecting one (key construction,
+            // fixtures, a call between two checked operations): the shard cannot go on, but this is an
+            // observation about the library - record it instead of dying as a harness error
+            if let Some(rest) = loc.strip_prefix("/repo/") {
+                let short: String = rest.replace("/src/", "/");
+                fatal("process", &format!("library-panic:{short}"), serde_json::json!({"panic": msg, "location": loc}));
+            }
         }
         LAST_PANIC.with(|p| *p.borrow_mut() = Some(format!("{msg} @ {loc}")));
     }));
